@@ -79,6 +79,18 @@ def call_outcome(func, *args):
     return ('value', norm(r))
 
 
+def call_outcome_raw(func, *args):
+    """like call_outcome, the value handed back as it is (to pass it on)"""
+    try:
+        return ('value', func(*args))
+    except MonitorAbort:
+        raise
+    except RecursionError as e:
+        return ('raised', 'RecursionError: ' + str(e)[:80])
+    except Exception as e:  # noqa
+        return ('raised', f'{type(e).__name__}: {str(e)[:160]}')
+
+
 def call_with_deadline(func, args, seconds=5):
     """call_outcome under a wall-clock alarm (main thread only): a call that
     does not return within `seconds` is reported as ('raised', 'Timeout...')
